@@ -26,7 +26,7 @@
 (***************************************************************************)
 EXTENDS Naturals, Integers, Sequences, FiniteSets, TLC, SequencesExt
 
-CONSTANTS SdsWriters, RasWriters, Shapes, Types, RasDims, MaxObjs, MaxOps, KeepHist,
+CONSTANTS SdsWriters, RasWriters, Shapes, Types, RasDims, ScaleSets, MaxObjs, MaxOps, KeepHist,
           Mix     \* FALSE: generated files stay clear of the combinations with known findings (see Clear...), so that
                   \* everything else is explored to the end; TRUE: anything goes
 FAIL == -1
@@ -49,19 +49,29 @@ Family(w) == IF w = "DFSD" THEN "old" ELSE "new"
 \* known findings: a dataset added by DFSD to a file with SD structure is invisible to SD/NC; SD cannot add a
 \* dataset to a file written by DFSD
 ClearSds(w) == \A i \in 1..Len(sds) : Family(sds[i].writer) = Family(w)
-WriteSds(w, shape, ty) ==
+\* sc : which dimensions get a scale (a sequence of 0/1 as long as the shape; scale values have the dataset's type,
+\*      seed = the dataset's seed); unl : written through SD with an unlimited first dimension (shape[1] records)
+WriteSds(w, shape, ty, sc, unl) ==
     /\ st = "ready" /\ nk < MaxObjs
+    /\ Len(sc) = Len(shape)
+    /\ (w = "NC") => (\A i \in 1..Len(sc) : sc[i] = 0)
+    /\ unl => (w = "SD" /\ sc[1] = 0)
+    \* (the netCDF-style calls present ONE record count for all datasets with an unlimited dimension: datasets with
+    \*  different record counts in one file are not generated)
+    /\ unl => \A i \in 1..Len(sds) : sds[i].unl => sds[i].shape[1] = shape[1]
     /\ Mix \/ ClearSds(w)
     \* (the netCDF-style calls of this library can only create a file, not extend one: NC writes first)
     /\ (w = "NC") => (ty \in NcTypes /\ sds = <<>> /\ ras = <<>>)
-    /\ sds' = Append(sds, [writer |-> w, shape |-> shape, type |-> ty, k |-> nk + 1])
+    /\ sds' = Append(sds, [writer |-> w, shape |-> shape, type |-> ty, k |-> nk + 1, scales |-> sc, unl |-> unl])
     /\ nk' = nk + 1
-    /\ Log("WriteSds", [api |-> w, shape |-> shape, type |-> ty, k |-> nk + 1], [ret |-> 0])
+    /\ Log("WriteSds", [api |-> w, shape |-> shape, type |-> ty, k |-> nk + 1, scales |-> sc, unl |-> unl], [ret |-> 0])
     /\ UNCHANGED <<st, ras>>
-\* listing through SD or DFSD: shape, number type, seed
+ScalesSeen(r, e) == IF r = "DFSD" /\ e.writer # "DFSD" THEN [i \in 1..Len(e.scales) |-> 0] ELSE e.scales
+\* listing through SD or DFSD: shape, number type, seed, scales
 ListSds(r) ==
     /\ st = "ready" /\ r \in {"SD", "DFSD"}
-    /\ Log("ListSds", [api |-> r], [items |-> [i \in 1..Len(sds) |-> [shape |-> sds[i].shape, type |-> sds[i].type, k |-> sds[i].k]]])
+    \* (dimension scales set through SD are stored as coordinate variables: DFSD does not present them as scales)
+    /\ Log("ListSds", [api |-> r], [items |-> [i \in 1..Len(sds) |-> [shape |-> sds[i].shape, type |-> sds[i].type, k |-> sds[i].k, scales |-> ScalesSeen(r, sds[i])]]])
     /\ UNCHANGED <<st, sds, ras, nk>>
 \* listing through the netCDF-style calls: shape, element size, float or not, seed
 ListSdsNc ==
@@ -113,7 +123,7 @@ Legacy(f) ==
     /\ UNCHANGED <<st, sds, ras, nk>>
 
 Next == \/ Setup \/ ListSdsNc \/ VViews
-        \/ \E w \in SdsWriters, sh \in Shapes, ty \in Types : WriteSds(w, sh, ty)
+        \/ \E w \in SdsWriters, sh \in Shapes, ty \in Types, sc \in ScaleSets, unl \in BOOLEAN : WriteSds(w, sh, ty, sc, unl)
         \/ \E r \in {"SD", "DFSD"} : ListSds(r)
         \/ \E w \in RasWriters, d \in RasDims, nc \in {1, 3}, cp \in {"none", "rle", "deflate"}, pal \in {0, 1}, il \in {0, 1, 2} :
               WriteRas(w, d, nc, cp, pal, il)
